@@ -467,6 +467,11 @@ class Effects:
         if isinstance(e, ast.Call):
             if self.is_reg_ctor(fi, e):
                 return "fresh"
+            # an instance of another class of the package (LinkFormat(...), Link(...)) is no Registration,
+            # whatever its attributes are called
+            c = self.EA.res.class_of_name(fi, chain(e.func)) if chain(e.func) else None
+            if c is not None and c in self.prog.classes and not self.prog.is_subclass(c, REGQN):
+                return "other"
             if isinstance(e.func, ast.Attribute) and e.func.attr in ("get", "pop", "setdefault") and _table_of(e.func.value) in INDEXES:
                 return "pub"
             for callee, sc, cenv in self.rd_callees(fi, env, e, nid):
@@ -474,7 +479,7 @@ class Effects:
             return "unk"
         if isinstance(e, ast.Await):
             return self.state(fi, env, e.value, nid, depth + 1)
-        if isinstance(e, ast.Constant):
+        if isinstance(e, (ast.Constant, ast.List, ast.Tuple, ast.Dict, ast.Set, ast.ListComp, ast.DictComp, ast.SetComp, ast.GeneratorExp, ast.JoinedStr)):
             return "other"
         return "unk"
 
@@ -1571,37 +1576,86 @@ def e(ctx):
             if isinstance(n, ast.Attribute) and n.attr in INDEXES:
                 other.append(n)
         ctx.ob("%s has no other source of registrations" % cls, not other, fi, other[0] if other else fi.node, construct=stmt_text(other[0]) if other else "%s.render_get: sources" % cls)
-        # the enumeration feeds the answer: the local holding it is (transitively) what gets paginated
+        # the enumeration feeds the answer: what gets paginated (any spelling of the call of rd._paginate:
+        # positional / keyword arguments) derives from it through the function's def-use relation.  Pagination
+        # itself is outside this property: a lookup that slices in place has no such call, and then the answer
+        # it returns is what has to derive from the enumeration.
+        pfi = prog.funcs.get(RDMOD + "._paginate")
+        sinks = []
+        for c in calls_in(fi.node):
+            r = K.resolve_callee(prog, fi, c)
+            if r is not None and pfi is not None and r[0] is pfi:
+                b = K.bind_call(c, pfi, False)
+                p0 = K.all_params(pfi)[:1]
+                ctx.need(b is not None and p0 and p0[0] in b, "%s.render_get: call of _paginate with * / ** arguments" % cls)
+                sinks.append(b[p0[0]])
+        if not sinks:
+            sinks = [n.value for n in walk_no_nested(fi.node) if isinstance(n, ast.Return) and n.value is not None]
         for s in srcs:
             st = cfg_of(fi).nodes[cfg_of(fi).loc1(s)].ast
             tgt = st.targets[0].id if isinstance(st, ast.Assign) and len(st.targets) == 1 and isinstance(st.targets[0], ast.Name) else None
-            pag = [c for c, _ in find("_paginate($c, $q)", fi.node)]
-            ok = bool(pag) and all(K.contains(c.args[0], s) or (tgt is not None and _flows_from(fi, c.args[0], tgt)) for c in pag)
+            ok = bool(sinks) and all(K.contains(x, s) or (tgt is not None and _flows_from(fi, x, tgt)) for x in sinks)
             ctx.ob("%s: the paginated candidates derive from the enumeration" % cls, ok, fi, s)
+    # What the two link computations evaluate is collected over everything they run on behalf of the
+    # registration (K.ReceiverFlow): their own body, closures / lambdas / comprehensions, and transitively the
+    # methods, properties and rd.py functions that receive the registration or a value read from it -- so a
+    # per-link helper method, a module-level builder called with `self.base`, or `map(self._m, ..)` state the
+    # same facts as the inline loop.  A read inside such a callee happens during the call of
+    # get_host_link / get_based_links, i.e. it observes the registration's *current* attributes, which is all
+    # that the obligations below require of a read in the method's own body.
     REG = "cli.rd.CommonRD.Registration."
     hl = prog.func(REG + "get_host_link")
-    reads = {chain(n) for n in ast.walk(hl.node) if isinstance(n, ast.Attribute) and chain(n)}
-    ctx.ob("the host link is computed from the registration's current parameters, base and location", {"self.registration_parameters", "self.base", "self.href"} <= {r for r in reads} | {".".join(r.split(".")[:2]) for r in reads}, hl, hl.node,
-           construct="get_host_link", detail="reads %s" % sorted(r for r in reads if r.startswith("self.")))
-    links = [c for c in calls_in(hl.node) if chain(c.func) == "Link"]
-    for c in links:
-        kw = {k.arg: resolve_local(hl.node, k.value) for k in c.keywords}
-        # link_header.Link(href, attr_pairs=None, **kwargs): the target may be given positionally
-        href = kw.get("href") if "href" in kw else (resolve_local(hl.node, c.args[0]) if c.args and not isinstance(c.args[0], ast.Starred) else None)
-        ctx.ob("the host link carries base=self.base and href=self.href", chain(kw.get("base")) == "self.base" and chain(href) == "self.href", hl, c)
     bl = prog.func(REG + "get_based_links")
-    reads = {chain(n) for n in ast.walk(bl.node) if isinstance(n, ast.Attribute) and chain(n)}
-    ctx.ob("based links are computed from the registration's current links and base", "self.links.links" in reads and "self.base" in reads, bl, bl.node, construct="get_based_links",
-           detail="reads %s" % sorted(r for r in reads if r.startswith("self.")))
+    flows = {fi.qn: K.ReceiverFlow(prog, fi) for fi in (hl, bl)}
+    want_href = _str_parts(ast.parse("'/' + '/'.join(self.path)", mode="eval").body)
+
+    def self_reads(fi):
+        return sorted(r for r in flows[fi.qn].reads if r != "self")
+
+    RF = flows[hl.qn]
+    ctx.ob("the host link is computed from the registration's current parameters, base and location",
+           {"self.registration_parameters", "self.base"} <= RF.reads and ("self.href" in RF.reads or "self.path" in RF.reads), hl, hl.node,
+           construct="get_host_link", detail="reads %s" % self_reads(hl))
+    links = [(sc, env, c) for sc, env, c in RF.calls if (chain(c.func) or "").split(".")[-1] == "Link"]
+    ctx.need(bool(links), "get_host_link: no Link(...) construction found in the method or in what it calls")
+    for sc, env, c in links:
+        # link_header.Link(href, attr_pairs=None, **kwargs): the target may be given positionally or by keyword;
+        # `base=X` is appended to the attribute pairs as ['base', X], so a ['base', X] pair in the attr_pairs
+        # argument is the same fact.  Every spelling present must denote the registration's own attribute.
+        bases, o1 = K.ctor_attribute(sc, c, "base")
+        hrefs, o2 = K.ctor_attribute(sc, c, "href", positional=0, pairs_param=None)
+        ctx.need(not ((o1 and not bases) or (o2 and not hrefs)), "get_host_link: Link(...) built from * / ** arguments that are not displays: %s" % stmt_text(c, 80))
+
+        def is_href(v):
+            if RF.rchain(sc, env, v) == "self.href":
+                return True
+            # the location spelled out: the very string the href property is proved to return (below), where
+            # `self` is the registration
+            v = resolve_local(sc.node, v) if not isinstance(sc.node, ast.Lambda) else v
+            return env.get("self") == "self" and _str_parts(v) == want_href
+
+        ctx.ob("the host link carries base=self.base and href=self.href",
+               bool(bases) and all(RF.rchain(sc, env, v) == "self.base" for v in bases) and bool(hrefs) and all(is_href(v) for v in hrefs), sc if sc.qn in prog.funcs else hl, c)
+    RB = flows[bl.qn]
+    ctx.ob("based links are computed from the registration's current links and base", "self.links.links" in RB.reads and "self.base" in RB.reads, bl, bl.node, construct="get_based_links",
+           detail="reads %s" % self_reads(bl))
     for fi in (hl, bl):
-        st = [n for n in ast.walk(fi.node) if isinstance(n, (ast.Assign, ast.AugAssign)) for t in (n.targets if isinstance(n, ast.Assign) else [n.target]) if isinstance(_strip_subscripts(t), ast.Attribute)]
-        ctx.ob("%s keeps no cached copy (no attribute stores)" % fi.name, not st, fi, st[0] if st else fi.node, construct=stmt_text(st[0]) if st else "%s: stores" % fi.name)
+        # "no cached copy": nothing that outlives the call is stored to.  A store onto an object created in this
+        # very call (K.Freshness, the analysis of C20.h) only fills in the result; every other attribute / item
+        # store or delete -- in the method or in anything it runs -- would keep state between lookups.
+        FR = K.Freshness(prog)
+        FR.analyse(fi)
+        for u in flows[fi.qn].units:
+            if u.qn in prog.funcs and u.qn not in {k[0] for k in FR.done}:
+                FR.analyse(u)
+        st = [(bfi, n) for bfi, n, why in FR.bad if why.startswith("store through")]
+        ctx.ob("%s keeps no cached copy (no stores to objects that outlive the call)" % fi.name, not st, st[0][0] if st else fi, st[0][1] if st else fi.node,
+               construct=stmt_text(st[0][1]) if st else "%s: stores" % fi.name)
     ci = prog.cls("cli.rd.CommonRD.Registration")
     hf = ci.methods.get("href")
     ctx.need(hf is not None, "Registration.href missing")
     hr = [n for n in walk_no_nested(hf.node) if isinstance(n, ast.Return) and n.value is not None]
-    want = _str_parts(ast.parse("'/' + '/'.join(self.path)", mode="eval").body)
-    ctx.ob("href is '/' + '/'.join(self.path)", len(hr) == 1 and _str_parts(resolve_local(hf.node, hr[0].value)) == want, hf, hr[0] if hr else hf.node)
+    ctx.ob("href is '/' + '/'.join(self.path)", len(hr) == 1 and _str_parts(resolve_local(hf.node, hr[0].value)) == want_href, hf, hr[0] if hr else hf.node)
 
 
 def _strip_identity_wrappers(fi, v):
@@ -1632,10 +1686,18 @@ def _flows_from(fi, e, src, depth=0):
             continue
         seen.add(nm)
         for w in writes_to_name(fi.node, nm):
-            if isinstance(w, ast.Assign):
+            if isinstance(w, (ast.Assign, ast.AugAssign, ast.AnnAssign, ast.NamedExpr)) and w.value is not None:
                 todo.extend(names_in(w.value))
             elif isinstance(w, (ast.For, ast.AsyncFor)):
                 todo.extend(names_in(w.iter))
+            elif isinstance(w, (ast.With, ast.AsyncWith)):
+                for it in w.items:
+                    todo.extend(names_in(it.context_expr))
+        # what is put into the container the name refers to (loop + append instead of a comprehension)
+        for c in walk_no_nested(fi.node):
+            if isinstance(c, ast.Call) and isinstance(c.func, ast.Attribute) and isinstance(c.func.value, ast.Name) and c.func.value.id == nm and c.func.attr in MUT:
+                for a in list(c.args) + [k.value for k in c.keywords]:
+                    todo.extend(names_in(a))
     return False
 
 
@@ -1819,13 +1881,19 @@ def h_readonly(ctx):
         fi = ctx.prog.func(short)
         FR = K.Freshness(ctx.prog)
         FR.analyse(fi)
+        # ... and what runs without being called by name here: a bound method / function of the program passed
+        # on as a value (`map(self._m, xs)`), a property of the registration (K.ReceiverFlow); their parameters
+        # are not known to be fresh
+        RF = K.ReceiverFlow(ctx.prog, fi)
+        for u in RF.units:
+            if u.qn in ctx.prog.funcs and u.qn not in {k[0] for k in FR.done}:
+                FR.analyse(u)
         total += FR.sites
         for bfi, node, why in FR.bad:
             ctx.ob("a lookup computes its links without modifying what the registration stores", False, bfi, node, detail="%s: the mutated object is not known to be created in this call" % why)
         if not FR.bad:
             ctx.ob("%s mutates only containers it created itself" % fi.name, True, fi, fi.node, construct=fi.name, detail="%d in-place mutation site(s) in %d function(s)" % (FR.sites, len(FR.done)))
-        reads = {chain(n) for n in ast.walk(fi.node) if isinstance(n, ast.Attribute) and chain(n)}
-        ctx.need(any(r.startswith("self.") for r in reads), "%s no longer reads the registration" % fi.name)
+        ctx.need(any(r.startswith("self.") for r in RF.reads), "%s no longer reads the registration" % fi.name)
     ctx.note("%d in-place mutation site(s) in the link computations" % total)
 
 
